@@ -3,8 +3,10 @@
      (debug assertions and overflow checks off: cfg(debug_assertions) code compiled out), and
  (b) checker self-validation: every seeded change stored for this property is applied to a scratch
      worktree of /repo's current tree (outside /repo and /verif), facts are generated for it and the
-     property's rules must fire on something that is not a listed known finding. The scratch worktree is
-     removed immediately. Self-validation never changes the property verdict; it is reported in the evidence.
+     property's rules must fire on something that is not a listed known finding; every behaviour-preserving
+     refactoring stored under /verif/benign for the property's crate group is applied the same way and the rules
+     must stay quiet. The scratch worktree is removed immediately. Self-validation never changes the property
+     verdict; it is reported in the evidence (selftest_fired/total, benign_quiet/total).
 """
 import glob
 import json
@@ -63,12 +65,28 @@ def run_thorough(ctx, mod):
         if ctx.pid in exp:
             seeded.append(d)
     known, _ = ctx.known()
-    for d in seeded:
-        sid = os.path.basename(d)
+    # behaviour-preserving refactorings stored for this property's crate group: the rules must stay quiet on them
+    BENIGN_TAGS = {"pool": ("C01", "C02", "C03", "C04"), "once": ("C05", "C06", "C07"), "events": ("C08",), "cpus": ("C09", "C10", "C11"),
+                   "linked": ("C12",), "region": ("C13",), "vicinal": ("C14",), "deque": ("C15",), "nm": ("C16",), "bench": ("C17",),
+                   "alloc": ("C18",), "cbh": ("C19", "C20")}
+    benign = []
+    for d in sorted(glob.glob(os.path.join(F.VERIF, "benign", "*", "b*"))):
+        tag = os.path.basename(os.path.dirname(d)).rstrip("0123456789")
+        if ctx.pid in BENIGN_TAGS.get(tag, ()) and os.path.exists(os.path.join(d, "patch.diff")):
+            benign.append(d)
+    out["benign_total"] = 0
+    out["benign_quiet"] = 0
+    out["benign"] = []
+    for d in seeded + benign:
+        is_benign = d in benign
+        sid = os.path.basename(d) if not is_benign else os.path.basename(os.path.dirname(d)) + "-" + os.path.basename(d)
         patch = os.path.join(d, "patch.diff")
         scratch = os.path.join(SCRATCH_ROOT, sid)
         rec = {"id": sid, "status": "skipped", "fired": []}
-        out["selftest_total"] += 1
+        if is_benign:
+            out["benign_total"] += 1
+        else:
+            out["selftest_total"] += 1
         try:
             os.makedirs(SCRATCH_ROOT, exist_ok=True)
             if os.path.exists(scratch):
@@ -98,15 +116,20 @@ def run_thorough(ctx, mod):
                 continue
             fired = sorted({v["key"] for v in c3.violations if v["key"] not in known})
             rec["fired"] = fired[:8]
-            rec["status"] = "fired" if fired else "MISSED"
-            if fired:
-                out["selftest_fired"] += 1
+            if is_benign:
+                rec["status"] = "FALSE ALARM" if fired else "quiet"
+                if not fired:
+                    out["benign_quiet"] += 1
+            else:
+                rec["status"] = "fired" if fired else "MISSED"
+                if fired:
+                    out["selftest_fired"] += 1
         finally:
             _git("-C", repo, "worktree", "remove", "--force", scratch)
             shutil.rmtree(scratch, ignore_errors=True)
             _git("-C", repo, "worktree", "prune")
-            out["selftest"].append(rec)
-            ctx.log(f"self-validation {sid}: {rec['status']} {rec['fired'][:2]}")
+            (out["benign"] if is_benign else out["selftest"]).append(rec)
+            ctx.log(f"self-validation {'(benign) ' if is_benign else ''}{sid}: {rec['status']} {rec['fired'][:2]}")
     return out
 
 
